@@ -687,14 +687,16 @@ class ExtendedZoneProcessor: public ZoneProcessor {
       bool success = init(epochSeconds);
       if (!success) return TimeOffset::forError();
       const extended::Transition* transition = findTransition(epochSeconds);
-      return TimeOffset::forMinutes(transition->deltaMinutes);
+      return (transition)
+          ? TimeOffset::forMinutes(transition->deltaMinutes)
+          : TimeOffset::forError();
     }
 
     const char* getAbbrev(acetime_t epochSeconds) const override {
       bool success = init(epochSeconds);
       if (!success) return "";
       const extended::Transition* transition = findTransition(epochSeconds);
-      return transition->abbrev;
+      return (transition) ? transition->abbrev : "";
     }
 
     OffsetDateTime getOffsetDateTime(const LocalDateTime& ldt) const override {
